@@ -772,3 +772,134 @@ End Assembled.
 Theorem mark_is_flag : forall (l : list aterm) (i : nat) (t : aterm) (m : bool),
   nth_error l i = Some t -> at_finish t = Some m -> nth_error (finish_flags l) i = Some m.
 Proof. intros l i t m Hn Hm. rewrite finish_flags_ffwd. eapply ffwd_nth_marked; eassumption. Qed.
+
+(* ------------------------------------------------------------------ *)
+(* what explicit marks do, in user terms                                *)
+
+Section Marks.
+  Variable terms : list term_info.
+  Variable rx : N -> N -> option N.
+  Variable pos : N.
+
+  (* finish: nothing ranked after a matching terminal whose flag is set is ever returned *)
+  Lemma group_scan_cut : forall pre c post n P flags t,
+    nth_error flags (length pre) = Some true -> rx (c_id c) pos = Some n ->
+    In t (group_scan rx pos P (map to_lterm (pre ++ c :: post)) flags) ->
+    exists d, In d (pre ++ [c]) /\ fst t = c_id d.
+  Proof.
+    induction pre as [|x pre IH]; intros c post n P flags t Hf Hr Ht; simpl in Ht.
+    - destruct (c_prior c =? P); [|contradiction]. rewrite Hr in Ht.
+      destruct flags as [|f fr]; simpl in Hf; [discriminate|]. injection Hf as ->. simpl in Ht.
+      destruct Ht as [Ht|[]]. subst t. exists c. split; [left; reflexivity|reflexivity].
+    - destruct flags as [|f fr]; simpl in Hf; [discriminate|].
+      destruct (c_prior x =? P); [|contradiction].
+      destruct (rx (c_id x) pos).
+      + simpl in Ht. destruct f.
+        * destruct Ht as [Ht|[]]. subst t. exists x. split; [left; reflexivity|reflexivity].
+        * destruct Ht as [Ht|Ht].
+          -- subst t. exists x. split; [left; reflexivity|reflexivity].
+          -- destruct (IH _ _ _ _ _ _ Hf Hr Ht) as [d [Hd He]]. exists d. split; [right; exact Hd|exact He].
+      + simpl in Ht. destruct (IH _ _ _ _ _ _ Hf Hr Ht) as [d [Hd He]].
+        exists d. split; [right; exact Hd|exact He].
+  Qed.
+
+  Lemma marks_scan_cut : forall pre c post n flags t,
+    nth_error flags (length pre) = Some true -> rx (c_id c) pos = Some n ->
+    In t (marks_scan rx pos (map to_lterm (pre ++ c :: post)) flags) ->
+    exists d, In d (pre ++ [c]) /\ fst t = c_id d.
+  Proof.
+    induction pre as [|x pre IH]; intros c post n flags t Hf Hr Ht; simpl in Ht.
+    - rewrite Hr in Ht. destruct flags as [|f fr]; simpl in Hf; [discriminate|]. injection Hf as ->.
+      simpl in Ht. destruct Ht as [Ht|[]]. subst t. exists c. split; [left; reflexivity|reflexivity].
+    - destruct flags as [|f fr]; simpl in Hf; [discriminate|].
+      destruct (rx (c_id x) pos).
+      + simpl in Ht. destruct f.
+        * destruct Ht as [Ht|[]]. subst t. exists x. split; [left; reflexivity|reflexivity].
+        * destruct Ht as [Ht|Ht].
+          -- subst t. exists x. split; [left; reflexivity|reflexivity].
+          -- destruct (group_scan_cut _ _ _ _ _ _ _ Hf Hr Ht) as [d [Hd He]].
+             exists d. split; [right; exact Hd|exact He].
+      + simpl in Ht. destruct (IH _ _ _ _ _ Hf Hr Ht) as [d [Hd He]].
+        exists d. split; [right; exact Hd|exact He].
+  Qed.
+
+  Theorem finish_cuts : forall acts pre c post n flags t,
+    map fst acts = map c_id (pre ++ c :: post) -> terms_agree terms (pre ++ c :: post) ->
+    prior_sorted (pre ++ c :: post) ->
+    nth_error flags (length pre) = Some true -> rx (c_id c) pos = Some n ->
+    In t (recognize terms rx acts flags pos None []) ->
+    exists d, In d (pre ++ [c]) /\ fst t = c_id d.
+  Proof.
+    intros acts pre c post n flags t Hm Ha Hs Hf Hr Ht.
+    rewrite (recognize_marks terms rx pos acts _ flags Hm Ha Hs) in Ht.
+    eapply marks_scan_cut; eassumption.
+  Qed.
+
+  (* nofinish on the string terminals: the specificity rule is switched off, the rest of the
+     documented order stays *)
+  Definition strings_nofinish (cell : list cterm) : Prop :=
+    Forall (fun c => at_finish (c_a c) = if c_strlike c then Some false else None) cell.
+
+  Lemma nofinish_flag : forall c r, at_finish (c_a c) = (if c_strlike c then Some false else None) ->
+    implicit_finish (c_a c) (below_prior (map c_a r) None) = true -> boundary c r = true.
+  Proof.
+    intros c r Hm Hf. unfold implicit_finish in Hf. rewrite Hm in Hf.
+    destruct (c_strlike c) eqn:S; [discriminate|].
+    unfold c_strlike, a_strlike in S. unfold boundary, c_prior.
+    destruct (at_rec (c_a c)); try discriminate. rewrite orb_false_r in Hf. exact Hf.
+  Qed.
+
+  Lemma group_nofinish : forall r P,
+    prior_sorted r -> Forall (fun c => c_prior c <= P) r -> strings_nofinish r ->
+    group_scan rx pos P (map to_lterm r) (ffwd (map c_a r) None)
+    = map tok (filter (fun x : lterm * N => l_prior (fst x) =? P) (matches rx pos (map to_lterm r))).
+  Proof.
+    induction r as [|c r IH]; intros P Hs Hle Hn; simpl; [reflexivity|].
+    inversion Hle as [|? ? Hc Hr]; subst.
+    pose proof (prior_sorted_inv _ _ Hs) as [Hs' _].
+    inversion Hn as [|? ? Hm Hn']; subst.
+    destruct (c_prior c =? P) eqn:E.
+    - destruct (rx (c_id c) pos) eqn:Hrx.
+      + simpl. rewrite E. simpl. unfold tok at 1. simpl.
+        destruct (implicit_finish (c_a c) (below_prior (map c_a r) None)) eqn:F.
+        * apply (nofinish_flag c r Hm) in F. apply boundary_true in F; [|exact Hs'].
+          apply N.eqb_eq in E. rewrite E in F. rewrite (group_nil rx pos r P F). reflexivity.
+        * f_equal. apply IH; assumption.
+      + apply IH; assumption.
+    - apply N.eqb_neq in E.
+      assert (Hb : Forall (fun d => c_prior d < P) (c :: r)) by (apply sorted_below; [exact Hs|lia]).
+      pose proof (group_nil rx pos (c :: r) P Hb) as Hg. simpl in Hg. rewrite Hg. reflexivity.
+  Qed.
+
+  Lemma marks_nofinish : forall cell,
+    prior_sorted cell -> strings_nofinish cell ->
+    marks_scan rx pos (map to_lterm cell) (ffwd (map c_a cell) None)
+    = doc_all rx pos (map to_lterm cell).
+  Proof.
+    induction cell as [|c r IH]; intros Hs Hn; [reflexivity|].
+    pose proof (prior_sorted_inv _ _ Hs) as [Hs' Hc].
+    inversion Hn as [|? ? Hm Hn']; subst.
+    unfold doc_all. simpl. destruct (rx (c_id c) pos) eqn:E.
+    - rewrite keep_prior_cons by (apply matches_prior_le; exact Hc).
+      simpl. unfold tok at 1. simpl.
+      destruct (implicit_finish (c_a c) (below_prior (map c_a r) None)) eqn:F.
+      + apply (nofinish_flag c r Hm) in F. apply boundary_true in F; [|exact Hs'].
+        rewrite (group_nil rx pos r (c_prior c) F). reflexivity.
+      + f_equal. apply group_nofinish; assumption.
+    - apply IH; assumption.
+  Qed.
+
+  Theorem nofinish_doc : forall acts cell,
+    map fst acts = map c_id cell -> terms_agree terms cell -> prior_sorted cell ->
+    strings_nofinish cell ->
+    lexical_disambiguation terms (recognize terms rx acts (impl_flags cell) pos None [])
+    = map tok (keep_prefer (keep_longest (keep_prior (matches rx pos (map to_lterm cell))))).
+  Proof.
+    intros acts cell Hm Ha Hs Hn.
+    rewrite (recognize_marks terms rx pos acts cell _ Hm Ha Hs).
+    unfold impl_flags. rewrite finish_flags_ffwd. rewrite (marks_nofinish cell Hs Hn).
+    unfold doc_all. apply lexdis_doc.
+    intros x Hx. unfold keep_prior in Hx. apply filter_In in Hx. destruct Hx as [Hx _].
+    apply matches_In in Hx. destruct Hx as [d [Hd [Hf _]]]. rewrite Hf. simpl. apply (Ha d Hd).
+  Qed.
+End Marks.
